@@ -367,6 +367,190 @@ pub fn run(ctx: &mut Ctx) {
             let _ = std::fs::remove_file(&f);
         }
     }
+    // ---- the file system around the program: directories, special files, the same file on both
+    //      sides, a standard output that is an appended-to file, other encodings
+    {
+        use std::io::Write as _;
+        let sdir = dir.join("special");
+        let _ = std::fs::remove_dir_all(&sdir);
+        let _ = std::fs::create_dir_all(&sdir);
+        let docs: [&[u8]; 3] = [b"<a x=\"1\"><b>t</b><b k=\"2\"/></a>", "<Stra\u{df}e id=\"1\"><item/><item/>\u{416}</Stra\u{df}e>".as_bytes(), b"<?xml version=\"1.0\"?>\n<root><row id=\"1\"><v>1</v></row><row><v>2</v><w/></row></root>\n"];
+        let rounds = if ctx.thorough { 12 } else { 3 };
+        for round in 0..rounds {
+            let doc = docs[round % docs.len()];
+            let serde = rng.chance(1, 2);
+            let by_name = rng.chance(1, 2);
+            let mut opts = if serde { Opts::serde_xml_rs() } else { Opts::quick_xml() };
+            opts.sort_by_name = by_name;
+            let mut flags: Vec<String> = vec![];
+            if serde {
+                flags.extend(["--parser".to_string(), "serde-xml-rs".to_string()]);
+            }
+            if by_name {
+                flags.extend(["--sort".to_string(), "name".to_string()]);
+            }
+            let mut tab = ErrTab::default();
+            let expected = match run_impl(&[doc.to_vec()], &RCfg::default(), &mut tab) {
+                ImplResult::Tree(_, e) => match render(&e, &opts) {
+                    Ok(r) => format!("{}{}", HEADER, r),
+                    Err(_) => continue,
+                },
+                _ => continue,
+            };
+            // (name, argv after the flags, bytes on stdin, stdout appended to a file holding this, expectation)
+            enum Want {
+                Stdout,              // exit 0, stdout = expected + "\n"
+                File(std::path::PathBuf), // exit 0, stdout empty, the file = expected
+                Fault,               // exit 1, stderr, nothing on stdout
+            }
+            let mut scen: Vec<(&str, Vec<String>, Vec<u8>, Option<Vec<u8>>, Want)> = vec![];
+            let f_in = sdir.join("model in \u{e9}.xml");
+            std::fs::write(&f_in, doc).unwrap();
+            let ps = |p: &std::path::Path| p.to_string_lossy().to_string();
+            scen.push(("input:path-with-blank-and-non-ascii", vec![ps(&f_in)], vec![], None, Want::Stdout));
+            // a directory holding documents is not a document
+            let d_in = sdir.join("indir");
+            let _ = std::fs::create_dir_all(&d_in);
+            std::fs::write(d_in.join("a.xml"), doc).unwrap();
+            std::fs::write(d_in.join("b.xml"), doc).unwrap();
+            scen.push(("input:directory", vec![ps(&d_in)], vec![], None, Want::Fault));
+            // output path is a directory
+            scen.push(("output:directory", vec![ps(&f_in), ps(&d_in)], vec![], None, Want::Fault));
+            // a symbolic link to the document
+            let l_in = sdir.join("link.xml");
+            let _ = std::fs::remove_file(&l_in);
+            if std::os::unix::fs::symlink(&f_in, &l_in).is_ok() {
+                scen.push(("input:symlink", vec![ps(&l_in)], vec![], None, Want::Stdout));
+            }
+            // conversion in place: the output argument names the input file (three spellings)
+            for (k, spelling) in ["same-string", "dot-segment", "symlink"].iter().enumerate() {
+                let f = sdir.join(format!("inplace{}.xml", k));
+                std::fs::write(&f, doc).unwrap();
+                let other = match k {
+                    0 => ps(&f),
+                    1 => format!("{}/./inplace{}.xml", ps(&sdir), k),
+                    _ => {
+                        let l = sdir.join(format!("inplace{}.lnk", k));
+                        let _ = std::fs::remove_file(&l);
+                        let _ = std::os::unix::fs::symlink(&f, &l);
+                        ps(&l)
+                    }
+                };
+                let name: &'static str = match *spelling {
+                    "same-string" => "output:is-the-input-file",
+                    "dot-segment" => "output:is-the-input-file-other-spelling",
+                    _ => "output:is-a-symlink-to-the-input-file",
+                };
+                scen.push((name, vec![ps(&f), other], vec![], None, Want::File(f.clone())));
+            }
+            // the document arrives through a pipe that reports size 0: /dev/stdin and a FIFO
+            scen.push(("input:/dev/stdin-fed-by-a-pipe", vec!["/dev/stdin".to_string()], doc.to_vec(), None, Want::Stdout));
+            // standard output is a file opened for appending that already holds something
+            scen.push(("output:stdout-appended-to-a-non-empty-file", vec![ps(&f_in)], vec![], Some(b"// earlier output\n".to_vec()), Want::Stdout));
+            scen.push(("output:stdout-appended-to-an-empty-file", vec![ps(&f_in)], vec![], Some(vec![]), Want::Stdout));
+            // other encodings: UTF-16 with a byte-order mark, even and odd length; UTF-8 with a BOM is
+            // plain UTF-8 text whose first character is U+FEFF
+            for (k, le) in [true, false].iter().enumerate() {
+                let mut b: Vec<u8> = if *le { vec![0xFF, 0xFE] } else { vec![0xFE, 0xFF] };
+                for u in String::from_utf8_lossy(doc).encode_utf16() {
+                    b.extend_from_slice(&if *le { u.to_le_bytes() } else { u.to_be_bytes() });
+                }
+                if round % 2 == 1 {
+                    b.push(0x0A);
+                }
+                let f = sdir.join(format!("utf16-{}.xml", k));
+                std::fs::write(&f, &b).unwrap();
+                scen.push(("input:utf16-with-bom", vec![ps(&f)], vec![], None, Want::Fault));
+            }
+            let fifo = sdir.join("fifo.xml");
+            let _ = std::fs::remove_file(&fifo);
+            let have_fifo = Command::new("mkfifo").arg(&fifo).status().map(|s| s.success()).unwrap_or(false);
+            if have_fifo {
+                scen.push(("input:fifo", vec![ps(&fifo)], vec![], None, Want::Stdout));
+            }
+            for (name, tail, stdin_bytes, append_to, want) in scen {
+                let mut argv = flags.clone();
+                argv.extend(tail.clone());
+                let mut cmd = Command::new(&bin);
+                cmd.args(&argv).env_remove("RUST_LOG").stdin(std::process::Stdio::piped()).stderr(std::process::Stdio::piped());
+                let app_path = sdir.join("appended.txt");
+                if let Some(prior) = &append_to {
+                    std::fs::write(&app_path, prior).unwrap();
+                    let f = std::fs::OpenOptions::new().append(true).open(&app_path).unwrap();
+                    cmd.stdout(f);
+                } else {
+                    cmd.stdout(std::process::Stdio::piped());
+                }
+                let writer = if name == "input:fifo" {
+                    let fifo2 = fifo.clone();
+                    let d2 = doc.to_vec();
+                    Some(std::thread::spawn(move || {
+                        // opening blocks until the program opens the FIFO for reading; give up if it never does
+                        if let Ok(mut f) = std::fs::OpenOptions::new().write(true).open(&fifo2) {
+                            let _ = f.write_all(&d2);
+                        }
+                    }))
+                } else {
+                    None
+                };
+                let Ok(mut child) = cmd.spawn() else { continue };
+                if let Some(mut si) = child.stdin.take() {
+                    let _ = si.write_all(&stdin_bytes);
+                }
+                // a program that never opens the FIFO would leave the writer blocked: open it ourselves
+                // for reading once the program has finished
+                let Ok(o) = child.wait_with_output() else { continue };
+                if let Some(w) = writer {
+                    let _ = { use std::os::unix::fs::OpenOptionsExt as _; std::fs::OpenOptions::new().read(true).custom_flags(0o4000).open(&fifo) };
+                    let _ = w.join();
+                }
+                let exit = o.status.code().unwrap_or(-1);
+                let stdout: Vec<u8> = if append_to.is_some() { std::fs::read(&app_path).unwrap_or_default() } else { o.stdout.clone() };
+                let mut why: Vec<String> = vec![];
+                match &want {
+                    Want::Stdout => {
+                        let mut exp = append_to.clone().unwrap_or_default();
+                        exp.extend_from_slice(format!("{}\n", expected).as_bytes());
+                        if exit != 0 {
+                            why.push(format!("exit status {} on valid input", exit));
+                        }
+                        if stdout != exp {
+                            why.push(format!("standard output is not {}header + library rendering + newline ({} bytes seen, {} expected)", if append_to.is_some() { "the earlier content followed by " } else { "" }, stdout.len(), exp.len()));
+                        }
+                    }
+                    Want::File(f) => {
+                        if exit != 0 {
+                            why.push(format!("exit status {} on valid input", exit));
+                        }
+                        if !stdout.is_empty() {
+                            why.push("stdout not empty although an output file was named".into());
+                        }
+                        if std::fs::read(f).ok().as_deref() != Some(expected.as_bytes()) {
+                            why.push("the named output file is not exactly header + library rendering".into());
+                        }
+                    }
+                    Want::Fault => {
+                        if exit != 1 || o.stderr.is_empty() || !stdout.is_empty() {
+                            why.push(format!("exit {} stderr {} bytes stdout {} bytes; expected exit 1, a diagnostic, nothing on stdout", exit, o.stderr.len(), stdout.len()));
+                        }
+                    }
+                }
+                hist.add(name);
+                if !why.is_empty() {
+                    fails.push(json::obj(vec![
+                        ("check", json::s("cli-file-system")),
+                        ("scenario", json::s(name)),
+                        ("argv", J::A(argv.iter().map(json::s).collect())),
+                        ("what", json::s(format!("{}: {}", name, why.join("; ")))),
+                        ("documents", J::A(vec![json::bytes(doc)])),
+                    ]));
+                }
+            }
+            let _ = std::fs::remove_dir_all(&sdir);
+            let _ = std::fs::create_dir_all(&sdir);
+        }
+        let _ = std::fs::remove_dir_all(&sdir);
+    }
     if samples.is_empty() {
         samples.push(json::s("(see shards)"));
     }
